@@ -7,7 +7,7 @@
 # and stores it under /verif/seeded/<name>/ (patch.diff, seed_demo.rs, SEED.md, confirm.log).
 set -u
 id="$1"; name="${2:-$1}"
-wt=/tmp/seed/$id
+wt=${SEED_BASE:-/tmp/seed}/$id
 out=/verif/seeded/$name
 export CARGO_NET_OFFLINE=true CARGO_TARGET_DIR=$wt/target
 cd "$wt" || exit 2
@@ -17,14 +17,14 @@ git diff -- src Cargo.toml > "$out/patch.diff"
 cp tests/seed_demo.rs "$out/seed_demo.rs" || exit 2
 [ -f SEED.md ] && cp SEED.md "$out/SEED.md"
 log="$out/confirm.log"; : > "$log"
-mv tests/seed_demo.rs /tmp/seed/$id.seed_demo.rs
+mv tests/seed_demo.rs $wt.seed_demo.rs
 echo "== suite with change" >> "$log"
 cargo test --workspace --no-fail-fast --offline 2>&1 | grep -E "^test result|FAILED|failed" >> "$log"
 suite_ok=yes
 grep -q "FAILED\|[1-9][0-9]* failed" "$log" && suite_ok=no
 passed=$(grep "^test result: ok" "$log" | sed -E 's/.* ([0-9]+) passed.*/\1/' | paste -sd+ | bc)
 [ "${passed:-0}" -ge 137 ] || suite_ok=no
-mv /tmp/seed/$id.seed_demo.rs tests/seed_demo.rs
+mv $wt.seed_demo.rs tests/seed_demo.rs
 echo "== demo with change" >> "$log"
 cargo test --offline --test seed_demo 2>&1 | grep -E "^test |^test result|panicked" | head -20 >> "$log"
 if cargo test --offline --test seed_demo >/dev/null 2>&1; then demo_with=pass; else demo_with=fail; fi
